@@ -2,6 +2,8 @@ package c05
 
 import (
 	"fmt"
+	"io"
+	"net/http"
 	"regexp"
 	"strings"
 	"testing"
@@ -187,6 +189,11 @@ type STxn struct {
 type SCase struct {
 	Cfg  hx.Cfg `json:"cfg"`
 	Txns []STxn `json:"txns"`
+	// Long: every non-empty list gets ten further (unrelated) domains in front, as a real
+	// installation's lists may be long. Status: the web UI's status page, which displays the
+	// configuration, is fetched before the session (reading a configuration must not change it).
+	Long   bool `json:"long_lists,omitempty"`
+	Status bool `json:"status_page,omitempty"`
 }
 
 var propSess = hx.Prop[SCase]{
@@ -212,6 +219,8 @@ var propSess = hx.Prop[SCase]{
 			}
 			c.Txns = append(c.Txns, x)
 		}
+		c.Long = rapid.IntRange(0, 3).Draw(t, "long") == 0
+		c.Status = rapid.IntRange(0, 2).Draw(t, "status") == 0
 		return c
 	},
 	Run: runSess,
@@ -219,14 +228,39 @@ var propSess = hx.Prop[SCase]{
 
 func runSess(c SCase) *hx.Outcome {
 	o := &hx.Outcome{}
+	if c.Long {
+		pad := func(l []string) []string {
+			if len(l) == 0 {
+				return l
+			}
+			var out []string
+			for i := 0; i < 10; i++ {
+				out = append(out, fmt.Sprintf("filler%d.example", i))
+			}
+			return append(out, l...)
+		}
+		c.Cfg.AcceptDomains, c.Cfg.RejectDomains = pad(c.Cfg.AcceptDomains), pad(c.Cfg.RejectDomains)
+		c.Cfg.StoreDomains, c.Cfg.DiscardDomains = pad(c.Cfg.StoreDomains), pad(c.Cfg.DiscardDomains)
+		c.Cfg.RejectOrigin = pad(c.Cfg.RejectOrigin)
+		o.Class("lists of more than ten entries")
+	}
 	cfg := c.Cfg
-	cfg.NoHTTP = true
+	cfg.NoHTTP = !c.Status
 	w, err := hx.NewWorld(cfg)
 	if err != nil {
 		o.Failf(pid+":harness", "world: %v", err)
 		return o
 	}
 	defer w.Close()
+	if c.Status {
+		for _, p := range []string{"/serve/status", "/serve/greeting"} {
+			if resp, err := http.Get(w.HTTP.URL + p); err == nil {
+				_, _ = io.Copy(io.Discard, resp.Body)
+				resp.Body.Close()
+			}
+		}
+		o.Class("status page fetched first")
+	}
 	o.NonTrivial = cfgMatters(c.Cfg)
 	model := hx.NewEModel()
 	cl, _, err := w.DialSMTP()
